@@ -8,6 +8,7 @@ import (
 	"io"
 	"net"
 	"net/netip"
+	"os"
 	"runtime"
 	"sync"
 	"syscall"
@@ -40,7 +41,8 @@ type Pair struct {
 	// silently (data discarded), as the first write on a real TCP socket does.
 	WriteAfterPeerCloseOK bool
 
-	addr [2]net.Addr // local address of each end
+	addr [2]net.Addr  // local address of each end
+	wdl  [2]time.Time // write deadline of each end
 
 	// OnClose0, if set, is called (with the pair lock released) the first time
 	// end 0 is closed.
@@ -195,9 +197,16 @@ func (c *Conn) Write(b []byte) (int, error) {
 		}
 		p.mu.Lock()
 		wd := p.WriteDelay0
+		dl := p.wdl[0]
 		p.mu.Unlock()
 		if wd != nil {
 			if d := wd(); d > 0 {
+				if !dl.IsZero() && time.Now().Add(d).After(dl) {
+					if w := time.Until(dl); w > 0 {
+						time.Sleep(w)
+					}
+					return 0, opErr("write", os.ErrDeadlineExceeded)
+				}
 				time.Sleep(d)
 			}
 		}
@@ -289,11 +298,20 @@ func (p *Pair) Configure(f func(p *Pair)) {
 // non-TCP).
 func (p *Pair) SetAddr(i int, a net.Addr) { p.addr[i] = a }
 
-func (c *Conn) LocalAddr() net.Addr                { return c.p.addr[c.i] }
-func (c *Conn) RemoteAddr() net.Addr               { return c.p.addr[1-c.i] }
-func (c *Conn) SetDeadline(t time.Time) error      { return nil }
-func (c *Conn) SetReadDeadline(t time.Time) error  { return nil }
-func (c *Conn) SetWriteDeadline(t time.Time) error { return nil }
+func (c *Conn) LocalAddr() net.Addr  { return c.p.addr[c.i] }
+func (c *Conn) RemoteAddr() net.Addr { return c.p.addr[1-c.i] }
+
+// Write deadlines are honoured for simulated write delays (a write that would
+// still be held up when its deadline passes fails then with a timeout); read
+// deadlines are not implemented (corebgp sets none).
+func (c *Conn) SetDeadline(t time.Time) error     { return c.SetWriteDeadline(t) }
+func (c *Conn) SetReadDeadline(t time.Time) error { return nil }
+func (c *Conn) SetWriteDeadline(t time.Time) error {
+	c.p.mu.Lock()
+	c.p.wdl[c.i] = t
+	c.p.mu.Unlock()
+	return nil
+}
 
 // Listener is an in-memory net.Listener.
 type Listener struct {
